@@ -15,6 +15,8 @@ P = {
                       dict(cmd="float", quick=8000, thorough=400000)]),
     "C20": dict(theorems=["Properties/C20.v"],
                 runs=[dict(cmd="c20", quick=3000, thorough=200000, shards_thorough=4)]),
+    "C19": dict(theorems=["Properties/C19.v"],
+                runs=[dict(cmd="c19", quick=60, thorough=4000, shards_thorough=8)]),
     "C09": dict(theorems=["Properties/C09.v"],
                 runs=[dict(cmd="appdb", quick=300, thorough=20000, shards_thorough=4),
                       dict(cmd="c09", quick=16, thorough=600, shards_thorough=8, model=False)]),
@@ -54,6 +56,9 @@ META = {
     "C20": dict(text="Theorem: a proposal takes effect iff its support is strictly more than 2/3 of the present power (integers), at most one can, and the halt rule likewise; the real Blockchain decision functions are run on generated and boundary power/vote vectors (3v=2t±2, 10^40 magnitudes) through a verif accessor and compared with the model and with the integer inequality.",
                 note=TB + "Vote transactions (past heights, duplicate votes) are exercised by the ledger histories, not modelled here.",
                 technique="Coq proof (lia, induction over proposals) + differential + exact-arithmetic monitor"),
+    "C19": dict(text="Theorems over unbounded Z for every stake vector: the per-block accrual conserves reward+fees, only present non-dropped validators accrue their floor share, dropped validators' rewards return to the pool, the remainder sent to total-slashed is never negative; PayRewardsV5Fix never pays more than accrued plus the locked-stake surplus it adds to the emission, its 'Negative remainder' panic is unreachable, and the split is 10%/10%/commission/bip-share with the property's literals. The model (EndBlock accrual and PayRewardsV5Fix transliterated) is run against the real node block by block: accumulated rewards after every block and the RewardEvents of every payout.",
+                note=TB + "Validator-set changes in the middle of a period (SetNewValidators carrying accumulated rewards over) are checked by a monitor on the node, not modelled.",
+                technique="Coq proof (nia/lia over Z, induction over validators and stakes) + differential correspondence against the real node + monitors"),
     "C09": dict(text="Theorem (appdb layer, complete): for every history of blocks (arbitrary programs over the appdb API) with any restarts, every getter (height, hash, validators, block times, versions, emission, price) returns what a never-restarted node returns; tied to the source by a translator (Commit write order, Save* guards, dirty-flag assignments) and by running random programs against the real AppDB. Node level: generated histories executed straight and with restarts on the real node, comparing responses, app hashes, emission, exports.",
                 note=TB + "PARTIAL: caches of the state modules (order book, candidates, ...) are not modelled; for them only the node-level restart differential speaks.",
                 technique="Coq proof (invariant: caches coherent with disk after Commit) + regenerated code shape + differential (AppDB programs, node restarts)"),
